@@ -132,3 +132,8 @@ Definition hrow {T : Type} (g : @hgrammar T) (v : nat) : list (T * nat) := nth v
 (* (b) calculate_probabilities: counter.values(), sum(...) left to right from 0 *)
 Definition py_values {O : numops} (c : counter O) : list (num O) := map snd c.
 Definition py_sum {O : numops} (l : list (num O)) : num O := fold_left (nadd O) l (nzero O).
+
+(* (c) edit_rules: config.get('terminal_set') is a list of strings or False.
+   False is the model's None and, where a list is expected, the empty list
+   (both are falsy; the function receiving it is only called under the truth test) *)
+Definition cfg_list (o : option (list (list N))) : list (list N) := match o with Some s => s | None => [] end.
